@@ -1,5 +1,151 @@
 package main
 
-// thoroughExtras runs the additional analyses of the thorough tier.
+import (
+	"encoding/json"
+	"fmt"
+	"os"
+	"os/exec"
+	"path/filepath"
+	"regexp"
+	"sort"
+	"strings"
+)
+
+// thoroughExtras runs the additional analyses of the thorough tier:
+//
+//	(a) the same rules on the package type-checked for GOARCH=386 (uint and
+//	    bits.UintSize are 32 bits there); verdicts must agree,
+//	(b) checker sensitivity: every seeded variant of this property kept under
+//	    /verif/seeded that is expected to be caught must be reported on a
+//	    scratch copy (analysed in a separate process, removed immediately),
+//	(c) for C20, the compiler's bounds-check-elimination report as a
+//	    cross-reference.
+//
+// A failed self-test is recorded as an undecided obligation: a checker that
+// lost its sensitivity must not report success.
 func thoroughExtras(c *Ctx, prop, repo, verif string, seed int64, cov map[string]interface{}, notes *[]string) {
+	saveRule := c.rule
+	defer func() { c.rule = saveRule }()
+	c.rule = &Rule{ID: "T.thorough", Props: []string{prop}}
+
+	// (a) GOARCH=386
+	p386, err := load(repo, "386")
+	if err != nil {
+		c.undecided("arch386.load", nil, "the package does not load for GOARCH=386: "+err.Error(), prop)
+	} else {
+		c2 := runRules(p386, prop, "quick")
+		v64 := map[string]string{}
+		for _, o := range c.Obls {
+			if hasProp(o.Props, prop) {
+				v64[o.Key] = o.Verdict
+			}
+		}
+		diff := 0
+		var diffs []string
+		n386 := 0
+		for _, o := range c2.Obls {
+			if !hasProp(o.Props, prop) {
+				continue
+			}
+			n386++
+			if v, ok := v64[o.Key]; !ok || v != o.Verdict {
+				diff++
+				if len(diffs) < 5 {
+					diffs = append(diffs, fmt.Sprintf("%s: amd64=%q 386=%q (%s)", o.Key, v, o.Verdict, o.Detail))
+				}
+			}
+		}
+		if diff == 0 && n386 == len(v64) {
+			c.ok("arch386", nil, fmt.Sprintf("%d obligations re-decided with GOARCH=386 type information: identical verdicts", n386), prop)
+		} else {
+			c.bad("arch386", nil, fmt.Sprintf("analysis under GOARCH=386 differs in %d obligations (amd64 has %d, 386 has %d): %s", diff, len(v64), n386, strings.Join(diffs, " | ")), prop)
+		}
+		cov["arch386_obligations"] = n386
+	}
+
+	// (b) seeded variants
+	type expect struct {
+		Detected   []string          `json:"detected"`
+		NotDecided map[string]string `json:"not_decided"`
+	}
+	var ex expect
+	if b, err := os.ReadFile(filepath.Join(verif, "seeded", "EXPECT.json")); err == nil {
+		json.Unmarshal(b, &ex)
+	}
+	exe, _ := os.Executable()
+	dirs, _ := filepath.Glob(filepath.Join(verif, "seeded", prop+"-*"))
+	sort.Strings(dirs)
+	var caught, missed, skipped []string
+	for _, d := range dirs {
+		id := filepath.Base(d)
+		tmp, err := os.MkdirTemp("", "dverif-seed-")
+		if err != nil {
+			skipped = append(skipped, id+" (no scratch dir)")
+			continue
+		}
+		func() {
+			defer os.RemoveAll(tmp)
+			files, _ := filepath.Glob(filepath.Join(repo, "*.go"))
+			for _, f := range append(files, filepath.Join(repo, "go.mod")) {
+				if b, err := os.ReadFile(f); err == nil {
+					os.WriteFile(filepath.Join(tmp, filepath.Base(f)), b, 0o644)
+				}
+			}
+			patch := exec.Command("patch", "-p1", "-s", "-i", filepath.Join(d, "patch.diff"))
+			patch.Dir = tmp
+			if out, err := patch.CombinedOutput(); err != nil {
+				skipped = append(skipped, id+" (patch no longer applies: "+strings.TrimSpace(string(out))+")")
+				return
+			}
+			cmd := exec.Command(exe, "check", "-prop", prop, "-tier", "quick", "-repo", tmp, "-verif", verif, "-noevidence")
+			out, _ := cmd.CombinedOutput()
+			if strings.Contains(string(out), "VIOLATION property="+prop) {
+				caught = append(caught, id)
+			} else {
+				missed = append(missed, id)
+			}
+		}()
+	}
+	expected := map[string]bool{}
+	for _, id := range ex.Detected {
+		expected[id] = true
+	}
+	var regress []string
+	for _, id := range missed {
+		if expected[id] {
+			regress = append(regress, id)
+		}
+	}
+	cov["seeded_variants_caught"] = caught
+	cov["seeded_variants_missed"] = missed
+	cov["seeded_variants_skipped"] = skipped
+	if len(regress) > 0 {
+		c.undecided("selftest.sensitivity", nil, "checker self-test failed: seeded variants that this check is expected to report were not reported: "+strings.Join(regress, ", "), prop)
+	} else if len(dirs) > 0 {
+		c.ok("selftest.sensitivity", nil, fmt.Sprintf("%d seeded variants of %s analysed on scratch copies: %d reported, %d not reported (listed as not decided), %d skipped", len(dirs), prop, len(caught), len(missed), len(skipped)), prop)
+	}
+	for _, id := range missed {
+		why := ex.NotDecided[id]
+		if why == "" {
+			why = "no sound structural rule"
+		}
+		*notes = append(*notes, "seeded variant "+id+" is not reported: "+why)
+	}
+
+	// (c) compiler BCE cross-reference (C20 only)
+	if prop == "C20" {
+		cmd := exec.Command("go", "build", "-a", "-gcflags=-d=ssa/check_bce/debug=1", ".")
+		cmd.Dir = repo
+		cmd.Env = append(os.Environ(), "GOFLAGS=-mod=mod", "GOPROXY=off", "GOSUMDB=off", "GOTOOLCHAIN=local", "GOWORK=off")
+		out, _ := cmd.CombinedOutput()
+		re := regexp.MustCompile(`(?m)^\./([a-z_0-9]+\.go):(\d+):\d+: Found (IsInBounds|IsSliceInBounds)`)
+		per := map[string]int{}
+		total := 0
+		for _, m := range re.FindAllStringSubmatch(string(out), -1) {
+			per[m[1]]++
+			total++
+		}
+		cov["compiler_unproven_bounds_checks"] = map[string]interface{}{"total": total, "by_file": per}
+		*notes = append(*notes, fmt.Sprintf("cross-reference: the Go compiler's bounds-check elimination leaves %d index/slice checks unproven (by file: %v); table accesses among them are decided by E11.index, the rest rest on data invariants that are NOT decided", total, per))
+	}
 }
